@@ -359,6 +359,9 @@ def finish(prop, mod, args, seed, cells, results, t0):
     solver_tot = {}
     validated = 0
     notes = []
+    if os.environ.get("VERIF_TIMES"):
+        for r in sorted(results, key=lambda q: -q["wall_s"])[:15]:
+            print(f"  cell {r['wall_s']:.1f}s solver={r['solver'].get('solver_s', 0):.1f}s", json.dumps(_jsonable(r["cfg"]))[:200])
     for r in results:
         if r["error"]:
             inconclusive.append({"cfg": r["cfg"], "why": r["error"]["kind"] + ": " + r["error"]["msg"],
